@@ -48,9 +48,10 @@ class ListenReactor(proto_helpers.MemoryReactorClock):
     def __init__(self, fail_bind):
         proto_helpers.MemoryReactorClock.__init__(self)
         self.open, self.next, self.fail_bind, self.bound = [], 40001, fail_bind, 0
+        self.busy = set()       # local ports somebody else has taken
 
     def listenTCP(self, port, factory, backlog=50, interface=""):
-        if self.fail_bind:
+        if self.fail_bind or port in self.busy:
             raise error.CannotListenError(interface, port, "injected")
         if port == 0:
             port = self.next
@@ -328,6 +329,8 @@ class Run(object):
                 while self.sim.held:
                     self.sim.release()          # (Tor has long answered what the earlier attempt left outstanding)
                 self.nlog = len(self.sim.log)
+                if e.get("busy"):
+                    self.reactor.busy.add(self.reactor.bound)      # somebody else has taken the local port meanwhile
                 d = self.listen_d = self.ep.listen(Factory.forProtocol(Protocol))
                 d.addBoth(self.fired.append)
                 self.sim.pump()
@@ -431,11 +434,12 @@ SCRIPTS = {
     # listen() again on the same endpoint: a retry after Tor refused the service; a restart after the port was stopped
     "reject_retry": ["Listen", "ConfigReady", "CreateReply", "Relisten", "CreateReply", "WaitOver", "UnsubAck", "StopListening"],
     "none_relisten": ["Listen", "ConfigReady", "CreateReply", "WaitOver", "UnsubAck", "StopListening", "Relisten", "StopListening"],
+    "none_relisten_busy": ["Listen", "ConfigReady", "CreateReply", "WaitOver", "UnsubAck", "StopListening", "Relisten!"],
     "invalid": ["Refuse"],
 }
 
 
-MODEL_FAULT = {"reject_retry": "reject", "none_relisten": "none"}       # script name -> the fault the model starts with
+MODEL_FAULT = {"reject_retry": "reject", "none_relisten": "none", "none_relisten_busy": "none"}       # script name -> the fault the model starts with
 
 
 def replay(cfg, fault, noise="", others=False):
@@ -443,7 +447,7 @@ def replay(cfg, fault, noise="", others=False):
     outstanding and again during the descriptor wait"""
     run = Run(cfg, MODEL_FAULT.get(fault, fault), others)
     steps = []
-    script = [dict(a=a) for a in script_for(cfg, fault, others)]
+    script = [dict(a="Relisten", busy=True) if a == "Relisten!" else dict(a=a) for a in script_for(cfg, fault, others)]
     if noise:
         out = []
         for i, e in enumerate(script):
